@@ -112,6 +112,23 @@ def run(ctx):
                     lv.close()
                 n_inter += 1
                 by_cfg.setdefault((variant, en, True), []).append((lv.trace, 1, seq, 0))
+    # an override that was in the files at one load and is gone at the next (no main file, with a main
+    # file, emptied / deleted / replaced): k loads give what one load of the current files gives
+    for variant in ('renamed', 'split', 'same'):
+        for en in (False, True):
+            for seq in ([('write', 'd1/b', 'old'), ('load', False), ('empty', 'd1/b'), ('load', False), ('load', True)],
+                        [('write', 'd2/a', 'old'), ('load', False), ('delete', 'd2/a'), ('load', False), ('load', False)],
+                        [('write', 'd1/a', 'new'), ('load', False), ('write', 'd1/a', 'old'), ('load', False), ('empty', 'd1/a'), ('load', False)],
+                        [('write', 'main', 'fixed'), ('write', 'd1/b', 'old'), ('load', False), ('replace', 'd1/b', 'new', False), ('load', False)],
+                        [('write', 'main', 'old'), ('load', False), ('empty', 'main'), ('load', False), ('load', True)]):
+                lv = lc.Live(rng, variant, en, via=rng.choice(['enforce', 'rules']))
+                try:
+                    for ev_ in seq:
+                        lv.step(ev_)
+                finally:
+                    lv.close()
+                n_inter += 1
+                by_cfg.setdefault((variant, en, True), []).append((lv.trace, 1, seq, 0))
     for (variant, en, ow), items in sorted(by_cfg.items()):
         traces = [it[0] for it in items]
         for idx, why, step in lc.judge_traces(ctx, variant, en, traces, overwrite=ow):
